@@ -668,16 +668,25 @@ def r4_r5(ctx):
                 bufl.append(base_local(pe, st_.rv.ops[0].place.local))
     bufl = sorted(set(bufl))
     parts = []
+    inplace = None
     for l in bufl:
         ws = writes_into(pe, p, l)
         ws.sort(key=flow_key(pe, ws))
         parts = [F(src[0]) for wb, m, src, wt in ws]
+        # the header written in the clear and masked in place (`buf.extend(header.encode()); cipher.apply_keystream(&mut buf[IV_LENGTH..])`)
+        # before the message is appended: the same bytes as appending the masked header
+        meths = [m for wb, m, src, wt in ws]
+        if eh is pe and meths == ["extend_from_slice", "extend_from_slice", "apply_keystream", "extend_from_slice"]:
+            tgt = slice_span(p.operand(ws[2][3].args[1]))
+            if tgt[1] == ({}, 16) and tgt[2] is None and canon(tgt[0]) == canon(p.local(l)):
+                inplace = ws[2]
+                parts = parts[:2] + parts[3:]
     hdr_part = "crate::packet::Packet::encrypt_header(self, dst_id)" if eh is not pe else "crate::packet::PacketHeader::encode(self.header)"
     r4.check(parts == ["core::num::to_be_bytes(self.iv)", hdr_part, "self.message"], "Packet::encode: iv || masked header || message", "Packet::encode|parts",
              "Packet::encode writes %s" % parts, loc=pe.loc(pe.line))
     p = Prov(eh, facts)
     ks = [(bi, t) for bi, t in eh.calls() if callee_matches(t, r"StreamCipher::apply_keystream$")]
-    okh = len(ks) == 1 and F(p.operand(ks[0][1].args[1])) == "crate::packet::PacketHeader::encode(self.header)" and \
+    okh = len(ks) == 1 and (F(p.operand(ks[0][1].args[1])) == "crate::packet::PacketHeader::encode(self.header)" or (inplace is not None and ks[0][0] == inplace[0])) and \
         (F(p.local(0)) == "crate::packet::PacketHeader::encode(self.header)" if eh is not pe else True)
     r4.check(okh, "Packet::encrypt_header: returns mask(self.header.encode())", "Packet::encrypt_header|source", "Packet::encrypt_header does not return the masked header.encode()", loc=eh.loc(eh.line))
     return r4, r5
